@@ -67,6 +67,15 @@ def pipeline (fuel : Nat) (ctx : PRef → Option (List (String × Nat))) (h : HM
   | .ok e => exportModule e
   | .error e => .error e
 
+/-- the modules of a design, children before parents, each elaborated and exported against what the package holds so far
+    (`exts`: the external modules the package declares; primitives come from the regenerated table) -/
+def pipelineDesign (fuel : Nat) (exts : List PExt) : List HModule → List PModule → Except Err (List PModule)
+  | [], acc => .ok acc
+  | h :: rest, acc =>
+    match pipeline fuel (targetPorts ⟨[], exts⟩ acc) h with
+    | .ok p => pipelineDesign fuel exts rest (acc ++ [p])
+    | .error e => .error e
+
 /-- fuel that the resolver never runs out of on the connections of `h` in practice (compared with the implementation on every
     run; the theorems hold for every fuel) -/
 def connFuel (c : SConn) : Nat :=
